@@ -587,7 +587,7 @@ def gen_history(rng, cfg, length=25, weights=None, max_sessions=4, allow_disc_ha
         elif k == 'post':
             r = rng.random()
             if r < 0.8:
-                body = ('pk', [cpkt() for _ in range(rng.choice([1, 1, 1, 2, 3]))])
+                body = ('pk', [cpkt() for _ in range(rng.choice([1, 1, 1, 1, 2, 2, 3, 3, 15, 16]))])      # 16 = the largest body a server accepts
             elif r < 0.92:
                 body = ('undec', rng.randrange(5))
             else:
